@@ -102,6 +102,22 @@ def step (d : D) : List String → D × String
     match n.toNat? with
     | some n => ({ d with net := d.net.modNode n (fun nd => { nd with flag := true }) }, "ok")
     | none => (d, "bad-op")
+  | ["fw", n] =>
+    match n.toNat? with
+    | some n => ({ d with net := d.net.modNode n (fun nd => { nd with fw := some [] }) }, "ok")
+    | none => (d, "bad-op")
+  | ["fwpermit", n, l, c] =>
+    match n.toNat?, l.toNat?, c.toNat? with
+    | some n, some l, some c =>
+      ({ d with net := d.net.modNode n (fun nd => { nd with fw := nd.fw.map (fun a => a ++ [(l, c)]) }) }, "ok")
+    | _, _, _ => (d, "bad-op")
+  | ["power", n, on] =>
+    match n.toNat?, parseBool on with
+    | some n, some true =>
+      let (st, evs) := flush (powerOn fuelMax d.net n)
+      ({ d with net := st }, s!"ok {evs}")
+    | some n, some false => ({ d with net := powerOff d.net n }, "ok")
+    | _, _ => (d, "bad-op")
   | ["service", n, ip] =>
     match n.toNat?, parseIp ip with
     | some n, some ip =>
